@@ -22,7 +22,7 @@ from urllib.parse import urlencode
 from . import tlc
 from .common import Report, Violation
 
-PROP_OF = {"C16_ServerAccepts": "C16", "C16_KeyAccompanies": "C16", "C16_Fresh": "C16", "C16_NonceUnique": "C16",
+PROP_OF = {"C17_PayloadSum": "C17", "C16_ServerAccepts": "C16", "C16_KeyAccompanies": "C16", "C16_Fresh": "C16", "C16_NonceUnique": "C16",
            "C17_Plain": "C17", "C17_OmitUnset": "C17", "C17_Endpoint": "C17", "C17_Timestamp": "C17", "C17_Status": "C17",
            "C17_PayloadDecimal": "C17"}
 DRIFT = {"C17_ExactText"}
@@ -247,7 +247,164 @@ def decode_records(rng, quick):
             except Exception:  # noqa: BLE001
                 gc, ge = -1, 0
             c, e = norm(Decimal(txt))
-            recs.append({"kind": "payload_decimal", "coef": c, "exp": e, "got_coef": gc, "got_exp": ge, "text": txt})
+            recs.append({"kind": "payload_decimal", "coef": c, "exp": e, "got_coef": gc, "got_exp": ge, "text": txt, "label": "basic"})
+    recs += decode_wrappers(rng, quick)
+    return recs
+
+
+def decode_wrappers(rng, quick):
+    """Every decimal / timestamp field of the payload wrapper classes of both clients, and the totals they accumulate
+    (fees per asset over the trades of an order, filled amounts over the transactions of an order)."""
+    from basana.external.binance import common as bc, user_data as bud, trades as btr, klines as bkl, order_book as bob
+    from basana.external.bitstamp import exchange as sx, orders as so, trades as st, order_book as sob
+    from basana.core.pair import Pair
+    P = Pair("BTC", "USD")
+    recs = []
+
+    def ob_first(cls, side, k):
+        def f(t):
+            book = cls(P, {"bids": [[t, t]], "asks": [[t, t]], "lastUpdateId": 1, "microtimestamp": "1", "timestamp": "1"})
+            e = getattr(book, side)[0]
+            return e.price if k == 0 else e.volume
+        return f
+    fields = {
+        "binance.Balance.available": lambda t: bc.Balance({"free": t, "locked": "0"}).available,
+        "binance.Balance.locked": lambda t: bc.Balance({"free": "0", "locked": t}).locked,
+        "binance.Balance.total": lambda t: bc.Balance({"free": t, "locked": "0"}).total,
+        "binance.Trade.price": lambda t: bc.Trade({"price": t}).price,
+        "binance.Trade.amount": lambda t: bc.Trade({"qty": t}).amount,
+        "binance.Trade.quote_amount": lambda t: bc.Trade({"quoteQty": t}).quote_amount,
+        "binance.Trade.commission": lambda t: bc.Trade({"commission": t}).commission,
+        "binance.OpenOrder.amount": lambda t: bc.OpenOrder({"origQty": t}).amount,
+        "binance.OpenOrder.amount_filled": lambda t: bc.OpenOrder({"executedQty": t}).amount_filled,
+        "binance.OpenOrder.quote_amount_filled": lambda t: bc.OpenOrder({"cummulativeQuoteQty": t}).quote_amount_filled,
+        "binance.OpenOrder.limit_price": lambda t: bc.OpenOrder({"price": t}).limit_price,
+        "binance.OpenOrder.stop_price": lambda t: bc.OpenOrder({"stopPrice": t}).stop_price,
+        "binance.CanceledOrder.amount": lambda t: bc.CanceledOrder({"origQty": t}).amount,
+        "binance.OrderInfo.amount": lambda t: bc.OrderInfo({"origQty": t}, []).amount,
+        "binance.OrderInfo.amount_remaining": lambda t: bc.OrderInfo({"origQty": t, "executedQty": "0"}, []).amount_remaining,
+        "binance.OrderInfo.limit_price": lambda t: bc.OrderInfo({"price": t}, []).limit_price,
+        "binance.Fill.price": lambda t: bc.Fill({"price": t}).price,
+        "binance.Fill.amount": lambda t: bc.Fill({"qty": t}).amount,
+        "binance.Fill.commission": lambda t: bc.Fill({"commission": t}).commission,
+        "binance.CreatedOrder.limit_price": lambda t: bc.CreatedOrder({"price": t}).limit_price,
+        "binance.CreatedOrder.amount": lambda t: bc.CreatedOrder({"origQty": t}).amount,
+        "binance.CreatedOrder.amount_filled": lambda t: bc.CreatedOrder({"executedQty": t}).amount_filled,
+        "binance.CreatedOrder.quote_amount_filled": lambda t: bc.CreatedOrder({"cummulativeQuoteQty": t}).quote_amount_filled,
+        "binance.OrderUpdate.amount": lambda t: bud.OrderUpdate({"e": "executionReport", "q": t}).amount,
+        "binance.OrderUpdate.quote_amount": lambda t: bud.OrderUpdate({"e": "executionReport", "Q": t}).quote_amount,
+        "binance.OrderUpdate.limit_price": lambda t: bud.OrderUpdate({"e": "executionReport", "p": t}).limit_price,
+        "binance.OrderUpdate.stop_price": lambda t: bud.OrderUpdate({"e": "executionReport", "P": t}).stop_price,
+        "binance.OrderUpdate.amount_filled": lambda t: bud.OrderUpdate({"e": "executionReport", "z": t}).amount_filled,
+        "binance.OrderUpdate.quote_amount_filled": lambda t: bud.OrderUpdate({"e": "executionReport", "Z": t}).quote_amount_filled,
+        "binance.OrderUpdate.fees": lambda t: bud.OrderUpdate({"e": "executionReport", "N": "BNB", "n": t}).fees["BNB"],
+        "binance.ws.Trade.price": lambda t: btr.Trade(P, {"e": "trade", "p": t}).price,
+        "binance.ws.Trade.amount": lambda t: btr.Trade(P, {"e": "trade", "q": t}).amount,
+        "binance.kline.open": lambda t: bkl.Bar(P, {"t": 0, "o": t, "h": t, "l": t, "c": t, "v": "1"}).open,
+        "binance.kline.high": lambda t: bkl.Bar(P, {"t": 0, "o": t, "h": t, "l": t, "c": t, "v": "1"}).high,
+        "binance.kline.low": lambda t: bkl.Bar(P, {"t": 0, "o": t, "h": t, "l": t, "c": t, "v": "1"}).low,
+        "binance.kline.close": lambda t: bkl.Bar(P, {"t": 0, "o": t, "h": t, "l": t, "c": t, "v": "1"}).close,
+        "binance.kline.volume": lambda t: bkl.Bar(P, {"t": 0, "o": "1", "h": "1", "l": "1", "c": "1", "v": t}).volume,
+        "binance.OrderBook.bid.price": ob_first(bob.OrderBook, "bids", 0), "binance.OrderBook.bid.volume": ob_first(bob.OrderBook, "bids", 1),
+        "binance.OrderBook.ask.price": ob_first(bob.OrderBook, "asks", 0), "binance.OrderBook.ask.volume": ob_first(bob.OrderBook, "asks", 1),
+        "bitstamp.OpenOrder.limit_price": lambda t: sx.OpenOrder({"price": t}).limit_price,
+        "bitstamp.OpenOrder.amount": lambda t: sx.OpenOrder({"amount_at_create": t}).amount,
+        "bitstamp.Transaction.price": lambda t: sx.OrderStatusTransaction({"price": t}).price,
+        "bitstamp.Transaction.fee": lambda t: sx.OrderStatusTransaction({"fee": t}).fee,
+        "bitstamp.Transaction.dynamic": lambda t: sx.OrderStatusTransaction({"usdt": t}).usdt,
+        "bitstamp.OrderStatus.amount_remaining": lambda t: sx.OrderStatus({"amount_remaining": t}).amount_remaining,
+        "bitstamp.Balance.available": lambda t: sx.Balance({"available": t}).available,
+        "bitstamp.Balance.total": lambda t: sx.Balance({"total": t}).total,
+        "bitstamp.Balance.reserved": lambda t: sx.Balance({"reserved": t}).reserved,
+        "bitstamp.CanceledOrder.amount": lambda t: sx.CanceledOrder({"amount": t}).amount,
+        "bitstamp.CanceledOrder.limit_price": lambda t: sx.CanceledOrder({"price": t}).limit_price,
+        "bitstamp.CreatedOrder.price": lambda t: sx.CreatedOrder({"price": t}).price,
+        "bitstamp.CreatedOrder.amount": lambda t: sx.CreatedOrder({"amount": t}).amount,
+        "bitstamp.ws.Order.amount": lambda t: so.Order(P, {"amount_at_create": t}).amount,
+        "bitstamp.ws.Order.price": lambda t: so.Order(P, {"price_str": t, "price": 0}).price,
+        "bitstamp.ws.Trade.amount": lambda t: st.Trade(P, {"amount_str": t, "amount": 0}).amount,
+        "bitstamp.ws.Trade.price": lambda t: st.Trade(P, {"price_str": t, "price": 0}).price,
+        "bitstamp.OrderBook.bid.price": ob_first(sob.OrderBook, "bids", 0), "bitstamp.OrderBook.bid.volume": ob_first(sob.OrderBook, "bids", 1),
+        "bitstamp.OrderBook.ask.price": ob_first(sob.OrderBook, "asks", 0), "bitstamp.OrderBook.ask.volume": ob_first(sob.OrderBook, "asks", 1),
+    }
+    for label, fn in fields.items():
+        for _ in range(3 if quick else 40):
+            d = Decimal(rng.randint(1, 10**6)).scaleb(rng.randint(-12, 6))
+            txt = rng.choice([format(d, "f"), format(d, "f") + "0", "0" + format(d, "f") if d < 1 else format(d, "f"), str(d)])
+            try:
+                gc, ge = norm(Decimal(fn(txt)))
+                err = ""
+            except Exception as e:  # noqa: BLE001
+                gc, ge, err = -1, 0, f"{type(e).__name__}: {e}"[:200]
+            c, e = norm(Decimal(txt))
+            recs.append({"kind": "payload_decimal", "coef": c, "exp": e, "got_coef": gc, "got_exp": ge, "text": txt, "label": label, "err": err})
+
+    # totals accumulated over several payload entries: small coefficients so that the sums stay inside TLC's integers
+    def small():
+        return Decimal(rng.randint(1, 9999)).scaleb(rng.choice([-8, -7, -6, -5]))
+
+    def total_rec(label, addends, got):
+        try:
+            gc, ge = norm(Decimal(got)) if got is not None else (0, 0)
+        except Exception:  # noqa: BLE001
+            gc, ge = -1, 0
+        return {"kind": "payload_sum", "label": label, "addends": [list(norm(a)) for a in addends], "got_coef": gc, "got_exp": ge,
+                "text": " + ".join(format(a, "f") for a in addends)}
+    for i in range(40 if quick else 1500):
+        n = rng.randint(1, 4)
+        # Binance: commissions of the trades of one order, per commission asset (zero commissions are legal)
+        assets = [rng.choice(["BNB", "USDT", "BTC"][:rng.choice([1, 2, 3])]) for _ in range(n)]
+        comm = [small() if rng.random() < 0.85 else Decimal(0) for _ in range(n)]
+        trades = [bc.Trade({"commission": format(c, "f"), "commissionAsset": a, "price": "1", "qty": "1", "quoteQty": "1"})
+                  for a, c in zip(assets, comm)]
+        try:
+            fees = dict(bc.OrderInfo({"origQty": "1", "executedQty": "1", "cummulativeQuoteQty": "1"}, trades).fees)
+        except Exception:  # noqa: BLE001
+            fees = None
+        for a in sorted(set(assets)):
+            adds = [c for x, c in zip(assets, comm) if x == a]
+            got = None if fees is None else fees.get(a, Decimal(0))
+            recs.append(total_rec(f"binance.OrderInfo.fees[{len(adds)} trades]", adds, got if fees is not None else "NaN"))
+        if fees is not None:
+            extra = sorted(a for a, v in fees.items() if a not in assets and v)
+            if extra:
+                recs.append(total_rec("binance.OrderInfo.fees[unexpected asset]", [], fees[extra[0]]))
+        # Bitstamp: fee, base and quote amounts of the transactions of one order
+        tx = [{"tid": k, "price": "1", "fee": format(small() if rng.random() < 0.85 else Decimal(0), "f"),
+               "btc": format(small(), "f"), "usd": format(small(), "f"), "type": 2} for k in range(n)]
+        try:
+            oi = sx.OrderInfo(P, sx.OrderStatus({"id": 1, "status": "Finished", "amount_remaining": "0", "transactions": tx}))
+            got = {"fees": oi.fees.get("USD", Decimal(0)), "amount_filled": oi.amount_filled, "quote_amount_filled": oi.quote_amount_filled}
+        except Exception:  # noqa: BLE001
+            got = {"fees": "NaN", "amount_filled": "NaN", "quote_amount_filled": "NaN"}
+        recs.append(total_rec(f"bitstamp.OrderInfo.fees[{n} tx]", [Decimal(t["fee"]) for t in tx], got["fees"]))
+        recs.append(total_rec(f"bitstamp.OrderInfo.amount_filled[{n} tx]", [Decimal(t["btc"]) for t in tx], got["amount_filled"]))
+        recs.append(total_rec(f"bitstamp.OrderInfo.quote_amount_filled[{n} tx]", [Decimal(t["usd"]) for t in tx], got["quote_amount_filled"]))
+    # millisecond timestamps through every wrapper that carries one
+    epoch = datetime.datetime(1970, 1, 1, tzinfo=datetime.timezone.utc)
+    stamps = {
+        "binance.Trade.datetime": lambda ms: bc.Trade({"time": ms}).datetime,
+        "binance.CreatedOrder.datetime": lambda ms: bc.CreatedOrder({"transactTime": ms}).datetime,
+        "binance.OpenOrder.datetime": lambda ms: bc.OpenOrder({"time": ms}).datetime,
+        "binance.OCO.datetime": lambda ms: bc.CreatedOCOOrder({"transactionTime": ms}).datetime,
+        "binance.ws.Trade.datetime": lambda ms: btr.Trade(P, {"e": "trade", "T": ms}).datetime,
+        "binance.ws.Trade.datetime(str)": lambda ms: btr.Trade(P, {"e": "trade", "T": str(ms)}).datetime,
+        "binance.kline.datetime": lambda ms: bkl.Bar(P, {"t": ms, "o": "1", "h": "1", "l": "1", "c": "1", "v": "1"}).datetime,
+    }
+    for label, fn in stamps.items():
+        for _ in range(5 if quick else 200):
+            days = rng.randint(14610, 47480)
+            sec = rng.choice([0, 86399, rng.randint(0, 86399)])
+            ms = rng.choice([0, 999, 1, 500, rng.randint(0, 999)])
+            raw = (days * 86400 + sec) * 1000 + ms
+            try:
+                d = fn(raw)
+                delta = d - epoch
+                gd, gs, gu, utc = delta.days, delta.seconds, delta.microseconds, d.utcoffset() == datetime.timedelta(0)
+            except Exception:  # noqa: BLE001
+                gd, gs, gu, utc = -1, -1, -1, False
+            recs.append({"kind": "timestamp", "unit": "ms", "days": days, "sec": sec, "frac": ms, "got_days": gd, "got_sec": gs,
+                         "got_usec": gu, "got_utc": bool(utc), "raw": str(raw), "label": label})
     return recs
 
 
@@ -300,17 +457,28 @@ def check(rep: Report, tier: str, seed: int, prop: str = None):
                 shutil.copytree(tlc.SPECS, specdir)
                 tt = "{" + ", ".join(f'[cls |-> "{t["cls"]}", sign |-> "{t["sign"]}", query |-> "{t["query"]}", body |-> "{t["body"]}"]' for t in table) + "}"
                 with open(os.path.join(specdir, "Signing_MC.tla"), "w") as f:
-                    f.write(f"---- MODULE Signing_MC ----\nEXTENDS Signing\nMC_Table == {tt}\nMC_Endpoints == {endpoints_tla()}\nBoundNonce == nonce <= 2 /\\ clock <= 4\n====\n")
-                cfg = tlc.cfg_text({"ClassTable": tlc.Subst("MC_Table"), "Endpoints": tlc.Subst("MC_Endpoints"), "MaxLen": 2 if quick else 3,
-                                    "PreEncodedQuery": pre, "MaxWait": 2, "Tol": 1},
-                                   invariants=["Inv_C16_ServerAccepts", "Inv_C16_Fresh", "Inv_C16_NonceUnique"],
-                                   constraints=["BoundNonce"])
+                    f.write(f"---- MODULE Signing_MC ----\nEXTENDS Signing\nMC_Table == {tt}\nMC_Endpoints == {endpoints_tla()}\nBoundNonce == nonce <= 2 /\\ clock <= 4 /\\ received <= 3\n====\n")
+                def sign_cfg(resend, maxlen):
+                    return tlc.cfg_text({"ClassTable": tlc.Subst("MC_Table"), "Endpoints": tlc.Subst("MC_Endpoints"), "MaxLen": maxlen,
+                                         "PreEncodedQuery": pre, "MaxWait": 2, "Tol": 1, "Resend": resend},
+                                        invariants=["Inv_C16_ServerAccepts", "Inv_C16_Fresh", "Inv_C16_NonceUnique"],
+                                        constraints=["BoundNonce"])
+                cfg = sign_cfg("none", 2 if quick else 3)
                 with open(os.path.join(specdir, "Signing_MC.tla")) as f:
                     pass
                 res = tlc.run("Signing_MC", cfg, workdir=wd, timeout=1500)
                 rep.add_tlc("Signing/MC", res, {"classes": len(table), "MaxLen": 2 if quick else 3, "PreEncodedQuery": pre},
                             "every endpoint placement x every value of class strings; class table measured from urlencode / aiohttp")
                 model_rejects = not res.ok
+                # a lost connection: re-signing the request is a design the exchange accepts, transmitting the same headers
+                # again is not (must fail)
+                res2 = tlc.run("Signing_MC", sign_cfg("resign", 1 if quick else 2), workdir=wd, timeout=1500)
+                rep.add_tlc("Signing/MC", res2, {"classes": len(table), "Resend": "resign"}, "connection lost after the exchange received the request; the request is stamped and signed again")
+                model_rejects = model_rejects or not res2.ok
+                res3 = tlc.run("Signing_MC", sign_cfg("reuse", 1), workdir=wd, timeout=1500, dump_trace=False)
+                if res3.ok:
+                    raise tlc.MachineryError("must-fail config (a lost request is transmitted again with the same nonce) was accepted")
+                rep.extra["must_fail"] = {"Resend": "reuse", "violated": res3.violated}
                 # every value shape, concretised, through every authenticated entry point of the real clients
                 reps = [t["atoms"][0] for t in table] + [t["atoms"][-1] for t in table]
                 values = set(reps)
@@ -339,6 +507,10 @@ def check(rep: Report, tier: str, seed: int, prop: str = None):
                               "only": ["spot.account", "spot.query_order", "spot.account"]})
                 cases.append({"exchange": "bitstamp", "cid": "fresh", "amount": "1", "price": "1", "throttle": True,
                               "only": ["bts.balances", "bts.order_status"]})
+                # the connection goes away after the exchange received the request (once per entry point): whatever is
+                # transmitted next must be signed afresh
+                for ex in ("binance", "bitstamp"):
+                    cases.append({"exchange": ex, "cid": "lost-" + ex, "amount": "2", "price": "3", "drop": 1, "extra": {}})
                 recs = loop.run_until_complete(sig_impl.run_batch(cases))
                 seen = set()
                 for r in recs:
